@@ -28,6 +28,10 @@ def VMap.update (m : VMap) (k : Var) (xs : List Val) : VMap :=
   if m.any (fun p => decide (p.1 = k)) then xs.foldl (fun m x => VMap.add m k x) m
   else m ++ [(k, dedup' xs)]
 
+/-- a `None` next to a proper value is dropped (`if len(values) > 1 and None in values: values.remove(None)`) -/
+def dropNone (m : VMap) : VMap :=
+  m.map (fun p => if p.2.length > 1 && mem' none p.2 then (p.1, p.2.filter (fun x => decide (x ≠ none))) else p)
+
 /-- `_remove_repeated_variables_and_values`: collect the values of each variable; a `None` next to a proper value
 is dropped -/
 def removeRepeated (e : Event) : VMap :=
@@ -78,13 +82,14 @@ def popAll (m : VMap) : Except Err Event :=
     | [] => throw (.internal "KeyError"))
 
 /-- `simplify` after the validation and the minimisation of the event: Line 3 (first half), Line 2, Line 3 (second
-half), Line 2 again, and the final list comprehension -/
+half; after `fix:` c8cad49 a `None` that the merge of `Y_y` with `Y` put next to a proper value is dropped — before it
+the second check raised `TypeError` for `[(Y_y, y), (Y, None)]`), Line 2 again, and the final list comprehension -/
 def simplifyCore (me : Event) : Except Err (Option Event) := do
   let nonrefl := removeRepeated (splitReflexive me).2
   let refl := removeRepeated (splitReflexive me).1
   if ← anyInconsistent nonrefl refl then pure none
   else do
-    let refl' ← reduceReflexive refl
+    let refl' := dropNone (← reduceReflexive refl)
     if ← anyInconsistent nonrefl refl' then pure none
     else do
       let a ← popAll nonrefl
